@@ -174,6 +174,8 @@ impl Default for SyncResponder {
 /// new one is lower.
 fn push_bounded(v: &mut Vec<Location, SEGMENT_BUFFER_MAX>, loc: Location) {
     if v.push(loc).is_err() {
+        #[cfg(aranya_verif)]
+        crate::verif::probe("resp.push_bounded_evict");
         // Full — find the entry with the highest max_cut.
         let (max_idx, _) = v
             .iter()
@@ -200,6 +202,8 @@ fn skip_jump<S: Storage>(
     }
     let mut current = head;
     loop {
+        #[cfg(aranya_verif)]
+        crate::verif::tick();
         let seg = storage.get_segment(current)?;
 
         // Smallest skip entry at or above target (and below current).
@@ -445,6 +449,8 @@ impl SyncResponder {
         let mut prev_max_cut: Option<MaxCut> = None;
 
         while let Some((head, covered)) = heads.pop_covered()? {
+            #[cfg(aranya_verif)]
+            crate::verif::tick();
             // Flush pending entries whose shortest_max_cut (stored as max_cut)
             // is above the just-popped entry's longest_max_cut. No future
             // have_location can reach them since we process in descending order.
@@ -728,6 +734,8 @@ impl SyncResponder {
             }
 
             if sent < found.len() {
+                #[cfg(aranya_verif)]
+                crate::verif::probe("resp.resume_midsegment");
                 // The response filled up partway through this segment.
                 // Point this entry at the first unsent command so the next
                 // response resumes inside the segment; a command's location
